@@ -79,6 +79,34 @@ def is_excluded_by_statement(path_parts, basename, rel, patterns):
     return False
 
 
+def cli_discovery(R):
+    """Through the command line: a file named explicitly is scanned whatever its name, also when it lies inside a directory
+    that is a target as well; '-' (standard input) stays a target next to directories."""
+    import climain
+    import json
+    d = os.path.join(impl.scratch(), "c11cli")
+    shutil.rmtree(d, ignore_errors=True)
+    os.makedirs(os.path.join(d, "proj", "scripts"))
+    open(os.path.join(d, "proj", "a.py"), "w").write("assert a\n")
+    open(os.path.join(d, "proj", "scripts", "deploy"), "w").write("exec(x)\n")
+    open(os.path.join(d, "proj", "scripts", "tool.txt"), "w").write("import pickle\n")
+    for argv, want in ((["-r", "proj", "proj/scripts/deploy"], {"a.py", "deploy"}), (["-r", "proj/scripts/deploy", "proj"], {"a.py", "deploy"}),
+                       (["-r", "./proj", "proj/scripts/tool.txt", "proj/scripts/deploy"], {"a.py", "deploy", "tool.txt"}),
+                       (["proj/scripts/deploy"], {"deploy"}), (["-r", "proj"], {"a.py"})):
+        r = climain.run_main(["-q", "-f", "json", "--exit-zero"] + argv, cwd=d)
+        R.case(("cli-discovery", tuple(argv)), nontrivial=True, sample={"argv": argv, "exit": r["exit"]})
+        R.count("cli-discovery")
+        if r["exception"]:
+            R.violations.append({"what": "no report for %s (%s)" % (argv, r["exception"]), "input": {"argv": argv}, "observed": (r["traceback"] or "")[-300:], "signature": None})
+            continue
+        j = json.loads(r["stdout"])
+        got = {os.path.basename(k) for k in j["metrics"] if k != "_totals"}
+        if got != want:
+            R.violations.append({"what": "targets %s: scanned files %s, expected %s (explicit files are scanned whatever their name)" % (argv, sorted(got), sorted(want)),
+                                 "input": {"argv": argv}, "observed": sorted(j["metrics"]), "signature": None})
+    shutil.rmtree(d, ignore_errors=True)
+
+
 def run(R, replay=None):
     rng = random.Random(R.seed)
     for f in core.gen():
@@ -101,7 +129,8 @@ def run(R, replay=None):
         root = os.path.join(base, "t%d" % it)
         os.makedirs(root)
         dirs, files = build_tree(root, rng)
-        xsets = [DEFAULT_X, "test", ".git", "tests,build", "*/sub/*", "sub", "pkg/sub", "*.txt", "", "docs/", "./pkg", "con*"]
+        xsets = [DEFAULT_X, "test", ".git", "tests,build", "*/sub/*", "sub", "pkg/sub", "*.txt", "", "docs/", "./pkg", "con*",
+                 "./[ab].py", "*/[st]e[st]*.py", "./pkg/[!a]*.py,*.pyw", "./setup.p[xy]", "*/mod.py[w]"]
         xp = rng.choice(xsets)
         spelling = rng.choice([".", "pkg", "./", root, "src/", "."])
         recursive = rng.random() < 0.85
@@ -205,7 +234,7 @@ def run(R, replay=None):
         for _ in range(6):
             path = rng.choice(files) if files else "a.py"
             path = rng.choice(["", "./", root + "/"]) + path
-            exc = rng.sample(["test", ".git", "*.egg", "*/sub/*", "pkg/*", "*.txt", "con", ".", "a", "sub/"], rng.randint(0, 3))
+            exc = rng.sample(["test", ".git", "*.egg", "*/sub/*", "pkg/*", "*.txt", "con", ".", "a", "sub/", "[ab].py", "./[ab].py", "*/[!a].py", "s[e]tup.py"], rng.randint(0, 3))
             enf = rng.random() < 0.7
             r = bman._is_file_included(path, inc, exc, enforce_glob=enf)
             pcases.append(("(%s, %s, %s, %s)" % (L.pstr(path), L.lst([L.pstr(x) for x in inc], "pstr"), L.lst([L.pstr(x) for x in exc], "pstr"), L.B(enf)), L.B(r)))
@@ -233,4 +262,5 @@ def run(R, replay=None):
     for i, tail in mm[:10]:
         R.broken.append({"what": "correspondence: _is_file_included differs from the model", "input": pdescr[i],
                          "implementation": pcases[i][1], "model_output_excerpt": tail[:300]})
+    cli_discovery(R)
     R.disagreements_checked = len(cases) + len(pcases)
